@@ -95,11 +95,30 @@ class NpProxy(types.ModuleType):
 
     @staticmethod
     def zeros_like(a, dtype=None, **k):
+        if _keeps_native_dtype(a, dtype):
+            return np.zeros_like(a, dtype=dtype, **k)
         return models._zeros_like(a, dtype=dtype, **k)
 
     @staticmethod
     def ones_like(a, dtype=None, **k):
+        if _keeps_native_dtype(a, dtype):
+            return np.ones_like(a, dtype=dtype, **k)
         return models._ones_like(a, dtype=dtype, **k)
+
+
+def _keeps_native_dtype(a, dtype):
+    """integer/bool prototypes keep NumPy's real (truncating) semantics; float prototypes become SymArr, which
+    behaves identically for floats and can also hold symbolic values assigned later."""
+    if dtype is not None and dtype not in (int, bool, np.int64, np.intp, np.bool_):
+        return False
+    if isinstance(a, np.ndarray) and a.dtype != object:
+        return a.dtype.kind in 'iub' or dtype is not None
+    if isinstance(a, (list, tuple)) and not _seq_has_sym(a):
+        try:
+            return np.asarray(a).dtype.kind in 'iub'
+        except Exception:
+            return False
+    return False
 
 
 NP = NpProxy()
